@@ -196,6 +196,18 @@ def run_case(ctx, case):
         if not same:
             rec.violation("'%s' on exact data is not the mathematically exact result" % name, case, observed=ser(cx[name]), expected=ser(want[name]))
             return
+    # exact data only: parameters closer to a knot than double precision can tell (10^-20): ordering decisions must be exact too
+    hp = hair_params(U)
+    if hp:
+        hc = make_curve(U, P, W)
+        hv = impl(lambda: [pt_canon(hc(u)) for u in hp])
+        hd = drv.call("curve.def", *curve_args(U, P, W), hp)
+        l3(rec, "curve.def-hair")
+        rec.count("hair", "params")
+        if hv[0] != "ok" or hd[0] != "ok" or [tuple(x) for x in hv[1]] != [tuple(x) for x in tup(hd[1])]:
+            rec.violation("evaluation next to a knot (exact parameter within 1e-20) is not the mathematically exact result", case,
+                          observed=ser(hv[1]) if hv[0] == "ok" else str(hv[1])[:200], expected=ser(hd[1]) if hd[0] == "ok" else str(hd))
+            return
     if c.get("label") in ("big", "highdeg"):
         return          # exact half only (high degrees: the float solves are not in the well-conditioned class)
     for rep, npf in (("float", False), ("npfloat", True)):
